@@ -141,6 +141,13 @@ func VerifyFunc(prog *Program, pk *Pkg, fc *FuncContract, tier string) (rep *Fun
 	c.allocEntry = st.alloc
 	c.axiom(app(SBool, "<=", Term{"0", SInt}, st.alloc))
 	c.entry = st // provisional, for global variable lookups during parameter creation
+	for _, gp := range prog.pkgs {
+		if gp.contracts != nil {
+			for i := range gp.contracts.GhostVars {
+				c.ghostVar(st, &gp.contracts.GhostVars[i])
+			}
+		}
+	}
 
 	// parameters
 	var facts []Term
@@ -252,6 +259,7 @@ func (c *Ctx) checkEnsures(end, entry *State, fc *FuncContract, sig *types.Signa
 			v = c.load(end, c.elemPrefix(r.Type()), r.Type(), bx.Ref, c.idx(0))
 		}
 		env.vars[rn[i]] = v
+		env.vars[fmt.Sprintf("result%d", i)] = v
 		if len(c.fr.results) == 1 {
 			env.vars["result"] = v
 		}
